@@ -165,6 +165,48 @@ func (c20) Gen(r *simrt.Rand, idx int, tier string) *Case {
 				c.Note = "^" + strings.Split(al[r.Intn(len(al))], ":")[0]
 			}
 		}
+		if c.Sub != "returns-periods" && r.P(0.4) {
+			// drain every holding of the valuation commodity, one booking per day
+			// and nothing else on those days: afterwards that commodity is worth
+			// exactly nothing, and the reports that follow must say so
+			hold := map[string]Q{}
+			for _, p := range c.J.Postings() {
+				if isAL(p.Account) && p.Com == c.Val {
+					hold[p.Account] += p.Qty
+				}
+			}
+			var accs []string
+			for a, q := range hold {
+				if q != 0 {
+					accs = append(accs, a)
+				}
+			}
+			sort.Strings(accs)
+			d := max + 2
+			for _, a := range accs {
+				c.J.Dirs = append(c.J.Dirs, Dir{Kind: "txn", Date: d, Desc: "drain", Bookings: []Booking{{Credit: a, Debit: "Equity:Equity", Qty: hold[a], Com: c.Val}}})
+				d += Day(r.Range(1, 3))
+			}
+			if len(accs) > 0 {
+				// remove closes that would now precede the drain, then report well past it
+				var ds []Dir
+				for _, x := range c.J.Dirs {
+					if x.Kind == "close" || (x.Kind == "open" && x.Date > max) || x.Desc == "after reopening" || x.Desc == "emptied again" {
+						continue
+					}
+					ds = append(ds, x)
+				}
+				c.J.Dirs = ds
+				for i, a := range c.Args {
+					if a == "--to" {
+						c.Args[i+1] = (d + Day(r.Range(20, 70))).String()
+					}
+				}
+				if !RefCheck(c.J).OK {
+					return nil
+				}
+			}
+		}
 		c.L = RandLayout(r, c.J, 4)
 	case "returns-flows-only", "returns-noflows":
 		c.J, c.Val = genPortfolioJournal(r, c.Sub == "returns-noflows")
